@@ -315,16 +315,21 @@ def sensors_batch(case):
             saved = getattr(Comm, "serial", None)
             Comm.serial = fake
             try:
-                mon = SerM.SerialMonitor(r.choice([9600, 115200, 1]), port=r.choice(["COM4", "/dev/ttyUSB0"]))
+                nl = r.choice(["\n", "\n", "\r\n", "", ";", "\n\n"])
+                mon = SerM.SerialMonitor(r.choice([9600, 115200, 1]), port=r.choice(["COM4", "/dev/ttyUSB0"]), **({"newline": nl} if nl != "\n" or r.random() < 0.3 else {}))
                 vals = [r.choice(["hello", "", "ünï ✓ 端", 0, -5, 3.14, 1e20, True, None, Weird(), [1, 2], "a\nb", 0.1 + 0.2, b"x", "done\n", "\n", "x\r\n", "tail ", " lead", "\t"])
                         for _ in range(r.randint(1, 6))]
                 for v in vals:
+                    if r.random() < 0.15:
+                        # the line ending is a public attribute: a write uses the value it has at that moment
+                        nl = r.choice(["\n", "\r\n", "", "|"])
+                        mon.newline = nl
                     ret = mon.write(v)
                     ops += 1
                     want = str(v)
                     port = fake.ports[-1]
-                    if ret != want or not port.written or port.written[-1] != (want + "\n").encode("utf-8"):
-                        problems.append(("serial-write", f"write({v!r}) returned {ret!r} and sent {port.written[-1:]!r}; expected {want!r} + newline"))
+                    if ret != want or not port.written or port.written[-1] != (want + nl).encode("utf-8"):
+                        problems.append(("serial-write", f"write({v!r}) returned {ret!r} and sent {port.written[-1:]!r}; expected {want!r} + newline {nl!r}"))
                 if len(fake.ports[-1].written) != len(vals):
                     problems.append(("serial-write-count", f"{len(vals)} writes produced {len(fake.ports[-1].written)} payloads"))
                 mon.close()
